@@ -244,3 +244,29 @@ CHECKS['C10'] = dict(
 NOT_APPLICABLE = {}
 for e in ENGINES:
     e['serves_properties'] = sorted(CHECKS)
+
+
+# additions made while strengthening the checks (rounds 2-4 of the seeded changes, DESIGN.md 0.6)
+_ADDED = {
+    'C01': ' Part files are named so that the given order differs from the lexicographic one.',
+    'C02': ' Float backends hold both signed zeros; float results are compared exactly (values, dtype, sign of zeros) unless the program contains a power (4 ulp); the float scalars are 0.5 and 3.0.',
+    'C03': ' Channel patterns include -1 before a real channel; every traced recording is also opened as a dataset with a partial store and TemplateModel.get_waveforms is judged for stored, mixed and non-stored requests (clause ModelRoute). The thorough tier replays a regular stride of at most 120k generated cases.',
+    'C04': ' The lattice now has ~15k configurations (an inverse whitening file may exist without the matrix file); attributes of rank 2 and 4; the identity channel map over a wider raw file; ALF seconds going backwards by less than a sample must be rejected.',
+    'C05': ' Explicit thresholds are passed while the model is configured with another one.',
+    'C06': ' Feature stores of curated datasets; PCA requests of 2000..7000 waveforms given to the specification as distinct waveforms with multiplicities (PairProductOkW); results off the unit axes by more than 1e-4 are violations.',
+    'C07': ' Model queries are repeated after a merge and a split were written into the in-memory spike_clusters array; flatten is judged on overlapping groups; the calls made by the repository\'s own tests (test_array.py, test_traces.py, test_clusters.py) are recorded by a pytest plugin and validated by the same predicates (pipeline U).',
+    'C08': ' The thorough tier replays a seeded sample of 60k curated states.',
+    'C09': ' A recording of more than 100000 spikes (three batches of get_depths) judged around the batch boundaries; templates_probes with arbitrary probe labels; durations that are not whole samples are violations.',
+    'C10': ' Foreign kinds now include a file with two value columns and empty cells and a .csv carrying a field the model also saves; datasets in KiloSort, ALF and labelled-ALF layouts.',
+    'C11': ' Probe directories are named so that the given order differs from the lexicographic one.',
+    'C13': ' Sources with channel maps above raw channel 0, (n,1) column vectors, two templates merged; labels "", "probe00" and "a"; two conversions on one creator object; the guard is also tried through a symlink, a .. detour and a string path.',
+    'C14': ' Sources with two templates merged into one cluster (cluster depth vs template depth).',
+    'C15': ' Ccg.tla also holds a bag formulation of the pair count (proved equal to the brute-force count on every small train); long dense trains with 10^5..10^6 pairs per cell are judged by it.',
+    'C16': ' The chunkings requested by the repository\'s own tests are recorded and validated too (pipeline U).',
+    'C17': ' Trains are every non-decreasing one and its reversal; request lists name clusters twice; subsets are passed in any order; integer times are also run against half-integer bounds; ~690k configurations quick, 6M thorough; selections made by the repository\'s own tests are validated too (pipeline U).',
+    'C18': ' A string key that int() would accept and a parameter name with a leading underscore are part of the alphabets.',
+    'C19': ' One event name is made of the letters of the on_ prefix.',
+    'C20': ' Corrupted bodies come as other bytes, a truncated transfer or an empty 200 body; a wrong checksum is another well-formed one or a mangled text.',
+}
+for _k, _v in _ADDED.items():
+    CHECKS[_k]['text'] += _v
